@@ -1,6 +1,6 @@
 use crate::diagnostic_emitter::MosResult;
 use crate::impl_request_handler;
-use crate::lsp::{LspContext, RequestHandler};
+use crate::lsp::{to_path, LspContext, RequestHandler};
 use dissimilar::{diff, Chunk};
 use lsp_types::{DocumentFormattingParams, DocumentOnTypeFormattingParams, TextEdit, Url};
 use mos_core::formatting::{format, FormattingOptions};
@@ -35,7 +35,7 @@ impl RequestHandler<lsp_types::request::OnTypeFormatting> for OnTypeFormattingRe
 }
 
 fn do_formatting(ctx: &mut LspContext, uri: &Url) -> Option<Vec<TextEdit>> {
-    let path = uri.to_file_path().unwrap();
+    let path = to_path(uri);
     if ctx.error.is_empty() {
         ctx.codegen().map(|codegen| {
             let codegen = codegen.lock().unwrap();
